@@ -13,15 +13,18 @@ Local Open Scope N_scope.
 Definition mko := Build_cobj.
 Definition mkss := Build_ssconf.
 Definition mkx := Build_extra.
+Definition mkfb := Build_fblocked.
 
 (** What one generation showed: the error of Init (stage 0: toPersistent,
     code 1 ids / 2 blocked service; stage 1: storage, code = error class of
     Storage.Add; index of the object), or the stored clients in RangeByName
-    order with every field, ApplyClientFiltering for the probes, and the
-    objects forConfig returned. *)
+    order with every field, ApplyClientFiltering for the probes, whether
+    DNSFilter.ApplyAdditionalFiltering panicked for each probe (nil schedule),
+    and the objects forConfig returned. *)
 Inductive cres :=
   | RErr (stage i code : N)
-  | ROk (stored : list (client * extra)) (acfs : list (option settings)) (saved : list cobj).
+  | ROk (stored : list (client * extra)) (acfs : list (option settings)) (panics : list bool)
+        (saved : list cobj).
 
 Definition eqb_range (a b : Schedule.day_range) : bool :=
   Z.eqb (Schedule.dr_start a) (Schedule.dr_start b) && Z.eqb (Schedule.dr_end a) (Schedule.dr_end b).
@@ -49,7 +52,11 @@ Definition eqb_ss (a b : ssconf) : bool :=
 
 Definition eqb_extra (a b : extra) : bool :=
   eqb_ss (x_ss a) (x_ss b) && Bool.eqb (x_cache_enabled a) (x_cache_enabled b) &&
-  (x_cache_size a =? x_cache_size b).
+  (x_cache_size a =? x_cache_size b) && Bool.eqb (x_nil_sched a) (x_nil_sched b).
+
+Definition eqb_fblocked (a b : fblocked) : bool :=
+  eqb_list eqb_bytes (fb_ids a) (fb_ids b) &&
+  eqb_option (fun x y => eqb_list eqb_range (fst x) (fst y) && (snd x =? snd y)) (fb_sched a) (fb_sched b).
 
 Definition eqb_pid (a b : pid) : bool :=
   match a, b with
@@ -65,7 +72,7 @@ Definition eqb_cobj (a b : cobj) : bool :=
   eqb_bytes (o_name a) (o_name b) && eqb_list eqb_pid (o_ids a) (o_ids b) &&
   eqb_list eqb_bytes (o_tags a) (o_tags b) && eqb_list eqb_bytes (o_upstreams a) (o_upstreams b) &&
   (o_uid a =? o_uid b) && eqb_ss (o_ss a) (o_ss b) &&
-  eqb_option eqb_blocked (o_blocked a) (o_blocked b) &&
+  eqb_option eqb_fblocked (o_blocked a) (o_blocked b) &&
   (o_cache_size a =? o_cache_size b) && Bool.eqb (o_cache_enabled a) (o_cache_enabled b) &&
   Bool.eqb (o_use_global_settings a) (o_use_global_settings b) &&
   Bool.eqb (o_filtering a) (o_filtering b) && Bool.eqb (o_parental a) (o_parental b) &&
@@ -80,9 +87,9 @@ Section Conf.
   Definition eqb_cres (a b : cres) : bool :=
     match a, b with
     | RErr s i c, RErr s' i' c' => (s =? s') && (i =? i') && (c =? c')
-    | ROk st ac sv, ROk st' ac' sv' =>
+    | ROk st ac pn sv, ROk st' ac' pn' sv' =>
         eqb_list (fun x y => eqb_client (fst x) (fst y) && eqb_extra (snd x) (snd y)) st st' &&
-        eqb_list (eqb_option eqb_sett) ac ac' && eqb_list eqb_cobj sv sv'
+        eqb_list (eqb_option eqb_sett) ac ac' && eqb_list Bool.eqb pn pn' && eqb_list eqb_cobj sv sv'
     | _, _ => false
     end.
 
@@ -93,6 +100,7 @@ Section Conf.
     | LOk r =>
         ROk (map (fun c => (c, extra_of r (c_uid c))) (clients_by_name (fst r)))
             (map (fun q => apply_client_filtering (fst r) (fun _ => None) (fst q) (snd q) g) probes)
+            (map (fun q => query_panics r (fun _ => None) (fst q) (snd q)) probes)
             (save r)
     end.
 
